@@ -18,6 +18,11 @@ type c03env struct {
 	pl      netty.Pipeline
 	log     []string
 	recKind int
+	// C07 (nested): one ordered trace of every handler invocation, and a hook run by the exception handlers
+	traceAll bool
+	trace    []string
+	valName  func(error) string
+	onExcAll func(p *probe, pos int)
 }
 
 type probe struct {
@@ -44,6 +49,24 @@ func (p *probe) on(kind int, ctx netty.HandlerContext, arg interface{}, forward 
 			pos = -2 // context not bound to this handler
 		}
 		env.log = append(env.log, fmt.Sprintf("%d:%d", pos, p.id))
+	}
+	if env.traceAll && kind != 4 {
+		pos := -1
+		for j := 0; j < env.pl.Size()+2; j++ {
+			if c := env.pl.ContextAt(j); c != nil && c == ctx {
+				pos = j
+				break
+			}
+		}
+		if kind == 3 {
+			ex, _ := arg.(error)
+			env.trace = append(env.trace, fmt.Sprintf("x%d:%d=%s", pos, p.id, env.valName(ex)))
+			if env.onExcAll != nil {
+				env.onExcAll(p, pos)
+			}
+		} else {
+			env.trace = append(env.trace, fmt.Sprintf("v%d:%d:%d", kind, pos, p.id))
+		}
 	}
 	if (kind == 3 || kind == 4) && p.onExc != nil && env.recKind != kind {
 		pos := -1
